@@ -393,11 +393,15 @@ def generate_and_run(seed, keep_events=False):
                                        "via_sut": rnd.random() < 0.4, "realify": rnd.random() < 0.4}}
         records.append(rec)
         run.step(rec)
+        prev_measure = None
         for _ in range(cfg["length"]):
             k = rnd.randint(1, n)
             measure = sorted(rnd.sample(range(n), k))
             if rnd.random() < 0.2:
                 rnd.shuffle(measure)
+            if prev_measure is not None and rnd.random() < 0.5:
+                measure = list(prev_measure)     # the same measurement again (possibly after the state was edited)
+            prev_measure = list(measure)
             mode = rnd.choice(("const", "adversarial", "adversarial", "matrix", "matrix", "stream"))
             if mode == "stream" or rnd.random() < cfg["big_p"]:
                 N = rnd.choice((2000, 5000, 20000)) if mode == "stream" else rnd.randint(1, 64)
